@@ -185,3 +185,29 @@ def safe_decompile(acc, fn, infos, ops, named, seconds=20):
     except Exception as e:
         acc.count("decompile_raised:" + type(e).__name__)
         return None
+
+
+def _map(x, f):
+    if isinstance(x, tuple) and len(x) == 6 and x[0] == "pos" and isinstance(x[1], str):
+        return f(x)
+    if isinstance(x, tuple):
+        return tuple(_map(y, f) for y in x)
+    if isinstance(x, list):
+        return [_map(y, f) for y in x]
+    return x
+
+
+def with_repeated_literals(prog, rnd):
+    """The same program with some Position literals replaced by copies of earlier ones (the same mark used at several places)."""
+    seen = []
+
+    def f(p):
+        if seen and rnd.random() < 0.4:
+            return rnd.choice(seen)
+        seen.append(p)
+        return p
+
+    out = dict(prog)
+    out["macros"] = _map(prog.get("macros", []), f)
+    out["routines"] = _map(prog["routines"], f)
+    return out
